@@ -80,6 +80,8 @@ def _cmp_key(l: ast.AST, r: ast.AST) -> str:
 
 
 _NEG = {ast.Eq: ast.NotEq, ast.NotEq: ast.Eq, ast.Is: ast.IsNot, ast.IsNot: ast.Is, ast.In: ast.NotIn, ast.NotIn: ast.In}
+# `not a > b` is `a <= b` for the integers / lengths compared in this code base (no NaN, no partial orders)
+_NEG_ORD = {ast.Lt: ast.GtE, ast.GtE: ast.Lt, ast.Gt: ast.LtE, ast.LtE: ast.Gt}
 _FLIP = {ast.Lt: ast.Gt, ast.Gt: ast.Lt, ast.LtE: ast.GtE, ast.GtE: ast.LtE}
 
 
@@ -126,6 +128,9 @@ class _Canon(ast.NodeTransformer):
         self.generic_visit(node)
         if isinstance(node.op, ast.Not) and isinstance(node.operand, ast.Compare) and len(node.operand.ops) == 1 and type(node.operand.ops[0]) in _NEG:
             return _negate(node.operand)
+        if isinstance(node.op, ast.Not) and isinstance(node.operand, ast.Compare) and len(node.operand.ops) == 1 and type(node.operand.ops[0]) in _NEG_ORD:
+            c = node.operand
+            return ast.copy_location(ast.Compare(left=c.left, ops=[_NEG_ORD[type(c.ops[0])]()], comparators=c.comparators), node)
         return node
 
     def visit_For(self, node: ast.For):
@@ -141,6 +146,9 @@ class _Canon(ast.NodeTransformer):
 
     def visit_Call(self, node: ast.Call):
         self.generic_visit(node)
+        # `signed=False` is the default of int.from_bytes / int.to_bytes: one spelling
+        if isinstance(node.func, ast.Attribute) and node.func.attr in ("to_bytes", "from_bytes"):
+            node.keywords = [k for k in node.keywords if not (k.arg == "signed" and isinstance(k.value, ast.Constant) and k.value.value is False)]
         if isinstance(node.func, ast.Attribute) and node.func.attr in ("to_bytes", "from_bytes") and len(node.keywords) == 1 and node.keywords[0].arg == "byteorder" \
                 and len(node.args) == (1 if not (isinstance(node.func.value, ast.Name) and node.func.value.id == "int" and node.func.attr == "to_bytes") else 2):
             node.args = list(node.args) + [node.keywords[0].value]
